@@ -69,10 +69,61 @@ class horizon:
 _CURVES = {}
 
 
+def _custom_curve(name):
+    """Non-shipped curves that the constructors accept ('all closed curves' in the quantifications):
+    ThinRect      rectangle [0,2] x [0,1/8]: points close in the plane and far apart along the boundary
+    ShiftedSquare unit square translated by (1,1): a closed polygon that does not start in the origin
+    OpenEll       open polyline (0,0)-(2,0)-(2,1)
+    BigCircle     one-piece circle of radius 2 (length 4 pi, not 2 pi)
+    Stadium       two straight sides of length 2 joined by two half circles of arc length 2 (pieces of different curvature)"""
+    import numpy as np
+    import src.parametrization as P
+    V = lambda pts: [np.array(p, dtype=float) for p in pts]
+    if name == 'ThinRect':
+        return P.PiecewisePolygon(V(((0, 0), (2, 0), (2, .125), (0, .125), (0, 0))))
+    if name == 'ShiftedSquare':
+        return P.PiecewisePolygon(V(((1, 1), (2, 1), (2, 2), (1, 2), (1, 1))))
+    if name == 'OpenEll':
+        return P.PiecewisePolygon(V(((0, 0), (2, 0), (2, 1))), closed=False)
+    if name == 'BigCircle':
+        return P.PiecewiseParametrization([0, 4 * np.pi], [lambda x: 2.0 * P.circle(np.asarray(x, dtype=float) / 2.0)])
+    if name == 'Stadium':
+        R = 2.0 / np.pi
+
+        def bottom(x):
+            x = np.asarray(x, dtype=float)
+            return np.vstack([x, 0 * x])
+
+        def snap(x, P_, x0, p0, x1, p1):
+            """bit-exact joints (the Slobodeckij corner rule asserts gamma_1(b_1) == gamma_2(a_2), as the polygon constructor does)"""
+            x = np.atleast_1d(np.asarray(x, dtype=float))
+            for xe, pe in ((x0, p0), (x1, p1)):
+                P_[0] = np.where(x == xe, pe[0], P_[0])
+                P_[1] = np.where(x == xe, pe[1], P_[1])
+            return P_
+
+        def right(x):
+            th = -np.pi / 2 + (np.asarray(x, dtype=float) - 2.0) / R
+            return snap(x, np.vstack([2.0 + R * np.cos(th), R + R * np.sin(th)]), 2.0, (2.0, 0.0), 4.0, (2.0, 2 * R))
+
+        def top(x):
+            x = np.asarray(x, dtype=float)
+            return np.vstack([2.0 - (x - 4.0), 2 * R + 0 * x])
+
+        def left(x):
+            th = np.pi / 2 + (np.asarray(x, dtype=float) - 6.0) / R
+            return snap(x, np.vstack([R * np.cos(th), R + R * np.sin(th)]), 6.0, (0.0, 2 * R), 8.0, (0.0, 0.0))
+        return P.PiecewiseParametrization([0, 2.0, 4.0, 6.0, 8.0], [bottom, right, top, left])
+    raise KeyError(name)
+
+
+CUSTOM_CURVES = ('ThinRect', 'ShiftedSquare', 'OpenEll', 'BigCircle', 'Stadium')
+
+
 def curve(name):
     if name not in _CURVES:
         import src.parametrization as P
-        _CURVES[name] = getattr(P, name)()
+        _CURVES[name] = _custom_curve(name) if name in CUSTOM_CURVES else getattr(P, name)()
     return _CURVES[name]
 
 
@@ -104,6 +155,17 @@ PARAM = {
     'UnitSquareT': ('param', 'UnitSquare', None, F(0, .25, 1), ''),
     'CircleT': ('param', 'Circle', None, F(0, .25, 1), ''),
     'UnitSquareX': ('param', 'UnitSquare', F(0, .25, 1, 2, 3, 4), F(0, 1), ''),
+    'ThinRect': ('param', 'ThinRect', None, F(0, 1), ''),
+    'BigCircle': ('param', 'BigCircle', None, F(0, 1), ''),
+    'Stadium': ('param', 'Stadium', None, F(0, 1), ''),
+    'ShiftedSquare': ('param', 'ShiftedSquare', None, F(0, 1), ''),
+    # the same curves with initial grids whose elements are comparable in size (neighbour ratio <= 2, arcs of 1/16 of the circle)
+    'BigCircleFine': ('param', 'BigCircle', tuple(float(4 * __import__('math').pi * k / 32) for k in range(32)) + (float(4 * __import__('math').pi), ), F(0, 1), ''),
+    'ThinRectFine': ('param', 'ThinRect', tuple(k / 8 for k in range(35)), F(0, 1), ''),
+    'StadiumFine': ('param', 'Stadium', tuple(k / 2 for k in range(17)), F(0, 1), ''),
+    'OpenEll': ('param', 'OpenEll', None, F(0, 1), ''),
+    # thin slabs at both ends of the time interval; a thin slab directly after a thick one
+    'UnitSquareEnds': ('param', 'UnitSquare', None, F(0, 1 / 32, 31 / 32, 1), ''),
 }
 CFGS = dict(PLAIN)
 CFGS.update(PARAM)
@@ -117,12 +179,22 @@ def leaf6(e):
     return e.time_interval + e.space_interval + tuple(e.levels)
 
 
+# named custom initial space grids (usable through the `pre` slot of a configuration / universe key)
+NAMED_XS = {
+    # one side of the unit square as [H][g][h][h][g][H] with h = 1/512, g = 8h, H = 247h: a tiny element at distance 8h from a
+    # neighbour-of-neighbour 247 times its size (very unequal, close, disjoint panels on one straight side)
+    'uneq': tuple(k / 512 for k in (0, 247, 255, 256, 257, 265, 512)) + (2.0, 3.0, 4.0),
+}
+
+
 def fresh(cfg):
     """Fresh real mesh for a configuration (without replaying any history)."""
     if cfg[0] == 'plain':
         _, glue, xs, ts = cfg
         return Mesh(glue_space=glue, initial_space_mesh=list(xs), initial_time_mesh=list(ts))
     _, cname, xs, ts, pre = cfg
+    if isinstance(pre, str) and pre.startswith('xs:'):
+        xs, pre = NAMED_XS[pre[3:]], ''
     m = MeshParametrized(curve(cname), initial_space_mesh=None if xs is None else list(xs),
                          initial_time_mesh=list(ts))
     if pre == 'driver':  # example.py: split the long sides of the L-shape
@@ -377,6 +449,39 @@ def all_states(ctx, cfgname, depth, key='fp', root=()):
 
 # ---------------------------------------------------------------------------------------------------
 # Directed deep roots and random walks (supplementary roots; never counted as exhaustive)
+def deep_end_histories(cfgname, k, kspace=4):
+    """Very deep directed histories away from the origin (sizes tiny RELATIVE to their coordinates) and long staircases:
+    tEnd       k time bisections of the leaf touching t = T in the first column
+    xEnd       k space bisections of the leaf touching x = L in the first slab
+    staircase  kspace uniform space refinements, then k time bisections of the corner leaf at (t, x) = (0, 0): one requested
+               bisection forces a chain of forced neighbour bisections across the columns"""
+    cfg = CFGS[cfgname]
+    outs = {}
+    m0 = fresh(cfg)
+    T0 = min(e.time_interval[0] for e in m0.leaf_elements)
+    TT = max(e.time_interval[1] for e in m0.leaf_elements)
+    X0 = min(e.space_interval[0] for e in m0.leaf_elements)
+    XL = max(e.space_interval[1] for e in m0.leaf_elements)
+
+    def run(name, chooser, steps, pre=()):
+        m = fresh(cfg)
+        h = []
+        for rect, ax in pre:
+            m.refine_axis(find_leaf(m, rect), ax)
+            h.append((rect, ax))
+        for _ in range(steps):
+            e, ax = chooser(m)
+            h.append((rect_of(e), ax))
+            m.refine_axis(e, ax)
+        outs[name] = tuple(h)
+
+    run('tEnd', lambda m: (min((e for e in m.leaf_elements if e.time_interval[1] == TT and e.space_interval[0] == X0), key=lambda e: e.h_t), 0), k)
+    run('xEnd', lambda m: (min((e for e in m.leaf_elements if e.space_interval[1] == XL and e.time_interval[0] == T0), key=lambda e: e.h_x), 1), k)
+    run('staircase', lambda m: (min((e for e in m.leaf_elements if e.time_interval[0] == T0 and e.space_interval[0] == X0), key=lambda e: e.h_t), 0), k,
+        pre=uniform_history(cfgname, kspace))
+    return outs
+
+
 def deep_histories(cfgname, k):
     """Histories that refine k times uniformly / towards t=0 / towards a corner / towards the seam."""
     cfg = CFGS[cfgname]
